@@ -233,6 +233,10 @@ BAD_HEX = [b'abc', b'zz', b'0g', b'12345', b'00' * 20 + b'x0', b'4', b'\x80\x80'
 BAD_B64 = [b'abc', b'A===', b'====', b'QUJD!AAA', b'AA=A', b'\xff\xff\xff\xff', b'QUJD' * 8 + b'A', b'QQ=QQQ==']
 FMT_FAIL = [('unterminated', 'bad_format'), ('badchar', 'bad_format'), ('missing', 'out_of_range'),
             ('index', 'out_of_range'), ('noarg', 'out_of_range'), ('badutf8', 'unicode_error')]
+# failing format calls whose argument is passed as an rvalue (std::move): every sink front end
+FMT_MOVE_FAIL = [('unterminated', 'bad_format'), ('badchar', 'bad_format'), ('missing', 'out_of_range'),
+                 ('index', 'out_of_range'), ('badutf8', 'unicode_error'), ('latin1', 'out_of_range'),
+                 ('printf', 'bad_format'), ('writef', 'out_of_range')]
 
 
 def failing_op(pool):
@@ -242,8 +246,9 @@ def failing_op(pool):
     known = pool.known()
     o = rng.choice(live)
     kind = rng.choice(['setfail', 'setfail', 'setcfail', 'ctorfail', 'appfail', 'plusfail', 'set16fail', 'set32fail',
-                       'from16fail', 'hexfail', 'b64fail', 'fmtfail', 'latin1fail'])
-    if kind in ('setfail', 'setcfail', 'ctorfail'):
+                       'from16fail', 'hexfail', 'b64fail', 'fmtfail', 'latin1fail', 'setmfail', 'ctorbuffail',
+                       'fmtmovefail', 'fmtmovefail', 'fmtmovestd'])
+    if kind in ('setfail', 'setcfail', 'ctorfail', 'setmfail', 'ctorbuffail'):
         b = rng.choice(BAD_UTF8)
         if kind == 'setcfail':
             b = b.replace(b'\x00', b'')
@@ -274,6 +279,16 @@ def failing_op(pool):
         if k != 'noarg':
             o = rng.choice(known)
         pool.ops.append('fmtfail,%d,%s,M=throw:%s:' % (o, k, e))
+    elif kind == 'fmtmovefail':
+        if not known:
+            return
+        o = rng.choice(known)
+        k, e = rng.choice(FMT_MOVE_FAIL)
+        # the callee keeps copies of the argument while it runs (by-value parameter, closure): temporaries
+        pool.ops.append('fmtmovefail,%d,%s,M=throw:%s:%s/%s' % (o, k, e, hx(pool.val[o]), hx(pool.val[o])))
+    elif kind == 'fmtmovestd':
+        b = rstr(rng, rng.choice(SIZES))
+        pool.ops.append('fmtmovestd,%d,%s,%s,M=throw:%s:%s' % (o, hx(b), *rng.choice([('missing', 'out_of_range'), ('open', 'bad_format')]), hx(b)))
     elif kind == 'latin1fail':
         # needs a string holding a character >= U+0100
         dead = pool.dead()
@@ -336,6 +351,16 @@ def directed_failing(rng):
                 failing_op(p)
             tailored_failing_ops(p, 0)
             tailored_failing_ops(p, 1)
+            if reps == 0:
+                for k, e in FMT_MOVE_FAIL:
+                    for o in (0, 1):
+                        p.ops.append('fmtmovefail,%d,%s,M=throw:%s:%s/%s' % (o, k, e, hx(p.val[o]), hx(p.val[o])))
+                b = bytes(p.val[0])
+                for k, e in (('missing', 'out_of_range'), ('open', 'bad_format')):
+                    p.ops.append('fmtmovestd,0,%s,%s,M=throw:%s:%s' % (hx(b), k, e, hx(b)))
+                bad = BAD_UTF8[0]
+                p.ops.append('setmfail,0,%s,M=throw:unicode_error:%s' % (hx(bad), hx(bad)))
+                p.ops.append('ctorbuffail,0,%s,M=throw:unicode_error:%s' % (hx(bad), hx(bad)))
             p.ops.append('reads,0')
             cat = p.val[0] + p.val[1] if p.val.get(0) is not None else None
             if cat is not None:
